@@ -299,17 +299,17 @@ type Value interface{ vkind() string }
 
 // Int is an abstract integer of a fixed width.
 type Int struct {
-	W      int
-	Signed bool
-	Bits   []Bit // len W, LSB first
-	Lo, Hi int64 // interval (unsigned 64-bit values above MaxInt64 are clamped to MaxInt64 = "unbounded")
-	D      Deps
-	VID    int64    // identity of the computed value (copies keep it), used by branch refinement
-	From   *CellKey // the cell this value was loaded from, if any
-	LtLen  *Object  // value < len(slice backed by this object)
-	IsLen  *Object  // value == len(slice backed by this object)
-	Base   Sym      // affine form: value == value-of-Base + Off (mod 2^W), valid if HasBase
-	Off    int64
+	W       int
+	Signed  bool
+	Bits    []Bit // len W, LSB first
+	Lo, Hi  int64 // interval (unsigned 64-bit values above MaxInt64 are clamped to MaxInt64 = "unbounded")
+	D       Deps
+	VID     int64    // identity of the computed value (copies keep it), used by branch refinement
+	From    *CellKey // the cell this value was loaded from, if any
+	LtLen   *Object  // value < len(slice backed by this object)
+	IsLen   *Object  // value == len(slice backed by this object)
+	Base    Sym      // affine form: value == value-of-Base + Off (mod 2^W), valid if HasBase
+	Off     int64
 	HasBase bool
 }
 
